@@ -305,6 +305,7 @@ func c10Snapshots(c *Ctx, maxHist int) map[string]*e1Snap {
 }
 
 func runC10(c *Ctx) {
+	sameAuthoritySweep(c, "c10")
 	maxHist := c.N(1, 2)
 	snaps := c10Snapshots(c, maxHist)
 	kms := []string{"memkm", "localkm"}
